@@ -1432,7 +1432,7 @@ def direct_sum(chk, src, topologies=NET_TOPOLOGIES):
             for n in w.snodes:
                 t = T(n.tensor._name, n.tensor.legs)
                 t.__dict__["shape"] = tuple(d if isinstance(d, int) else (Dim([f"{d}@{k}"]) if t.legs[j][0] == "ket" else d) for j, d in enumerate(t.shape))
-                t.__dict__["dtype"] = "dtype"
+                t.__dict__["dtype"] = ("dtype of summand", k)
                 n.__dict__["tensor"] = t
                 n.__dict__["qn"] = _QN(f"{n._name}.qn@{k}")
         stores, made = [], []
@@ -1444,12 +1444,20 @@ def direct_sum(chk, src, topologies=NET_TOPOLOGIES):
         def zeros(shape, dtype=None):
             made.append(Z("new-tensor"))
             made[-1].__dict__["made_shape"] = list(shape)
+            made[-1].__dict__["made_dtype"] = dtype
             return made[-1]
+
+        def promote(*ts):
+            out = set()
+            for t_ in ts:
+                out |= t_ if isinstance(t_, frozenset) else {t_}
+            return frozenset(out)
         new_nodes = [Sym(f"new({n})") for n in w1.snodes]
         new_tree = TreeSym("new", node_list=new_nodes, check_shape=lambda: None)
         w1.overrides[("ttns", "metacopy")] = lambda: new_tree
         interp = w1.interp
-        interp.builtins["np"] = Sym("np", promote_types=lambda *x: "dtype", zeros=zeros, concatenate=lambda l, axis=None: ("concat",) + tuple(repr(x) for x in l),
+        interp.builtins["np"] = Sym("np", promote_types=promote, result_type=promote, find_common_type=lambda a_, b_=(): promote(*list(a_), *list(b_)), zeros=zeros,
+                                    concatenate=lambda l, axis=None: ("concat",) + tuple(repr(x) for x in l),
                                     testing=Sym("testing", assert_allclose=lambda *x: None))
         Dim.__add__ = lambda s_, o: SumDim(s_, o)
         out = interp.call_function(fi, [w1.ttns, w2.ttns])
@@ -1475,9 +1483,12 @@ def direct_sum(chk, src, topologies=NET_TOPOLOGIES):
             q = new_node.__dict__.get("qn")
             wantq = repr(a.qn) + ".copy" if a.parent is None else ("concat", repr(a.qn), repr(b2.qn))
             okq = (repr(q) == wantq) if a.parent is None else (q == wantq)
-            ok = shape == want_shape and got1 == [tuple(want1)] and got2 == [tuple(want2)] and okq
-            chk.ob("direct-sum", f"TTNS.add [{topo}: {a}]", ok, fi.where, {"shape": [repr(x) for x in (shape or [])], "block 1": repr(got1), "block 2": repr(got2), "qn": repr(q)},
-                   {"shape": [repr(x) for x in want_shape], "block 1": repr([tuple(want1)]), "block 2": repr([tuple(want2)]), "qn": repr(wantq)}, line=fi.node.lineno,
+            dt = nt.__dict__.get("made_dtype") if isinstance(nt, Z) else None
+            okd = dt == frozenset({("dtype of summand", 1), ("dtype of summand", 2)})
+            ok = shape == want_shape and got1 == [tuple(want1)] and got2 == [tuple(want2)] and okq and okd
+            chk.ob("direct-sum", f"TTNS.add [{topo}: {a}]", ok, fi.where, {"shape": [repr(x) for x in (shape or [])], "block 1": repr(got1), "block 2": repr(got2), "qn": repr(q),
+                                                                         "element type": "the common type of both summands" if okd else repr(dt)},
+                   {"shape": [repr(x) for x in want_shape], "block 1": repr([tuple(want1)]), "block 2": repr([tuple(want2)]), "qn": repr(wantq), "element type": "the common type of both summands"}, line=fi.node.lineno,
                    detail=f"sum of two states at node {a}: every bond axis must be the direct sum of the two bonds (summand 1 in the leading block), physical axes and the root's upper bond are shared; "
                           "misclassifying an axis adds amplitudes that belong to different bond states or doubles the physical dimension (depends on the number of children)")
 
